@@ -239,6 +239,12 @@ func c17(ctx *Ctx) {
 	if err != nil {
 		harnessFail("run: %v", err)
 	}
+	var listedAll []string
+	for _, d := range c17ModelDevs {
+		if ctx.Run.Listed(d) {
+			listedAll = append(listedAll, d)
+		}
+	}
 	outcomes := map[string]int{}
 	for i, pr := range pairs {
 		if pr.j == nil || pr.y == nil {
@@ -258,6 +264,22 @@ func c17(ctx *Ctx) {
 		}
 		replay := map[string]any{"kind": "decode-pair", "files": pr.prog.Case.Files, "cfg": pr.prog.Case.Cfg, "json": pr.doc.Text, "yaml": pr.yaml,
 			"json_result": pr.j, "yaml_result": pr.y}
+		// the JSON path of a program generated with --extra-imports must also agree with the reference model (the other
+		// checks run their programs without the option)
+		ov := refmodel.Accept
+		if jv == "reject" {
+			ov = refmodel.Reject
+		}
+		if ov != pr.tv {
+			if devs, ok := attribute(pr.m, pr.doc.V, ov, listedAll); ok {
+				for _, dv := range devs {
+					ctx.Run.Known(dv, fmt.Sprintf("%s doc=%s model=%s json=%s", pr.sc.ID, pr.doc.Text, pr.tv, jv), replay)
+				}
+			} else {
+				ctx.Run.Violation("extra-imports-json-vs-model:"+pr.tv.String()+"/"+jv+":"+pr.sc.Axes["pos"]+":"+coarseClass(pr.doc.Class),
+					fmt.Sprintf("%s: document %s: with --extra-imports the JSON path says %s (%s), the reference model says %s", pr.sc.ID, pr.doc.Text, jv, firstLine(pr.j.Err+pr.j.Panic), pr.tv), replay)
+			}
+		}
 		diff := ""
 		if jv != yv {
 			diff = fmt.Sprintf("verdict differs: JSON %s (%s), YAML %s (%s)", jv, firstLine(pr.j.Err+pr.j.Panic), yv, firstLine(pr.y.Err+pr.y.Panic))
@@ -289,3 +311,9 @@ func c17(ctx *Ctx) {
 	ctx.Run.Assume("wrong-type documents are outside the statement (yaml.v3 converts scalars leniently)", "the YAML rendering is produced by yaml.v3 Marshal and must decode back to the JSON document's generic value, otherwise the document is skipped",
 		"trusted: encoding/json, yaml.v3, reflect")
 }
+
+// deviations of the JSON path that may show in the families C17 re-uses
+var c17ModelDevs = []string{"NULLABLE_DEF_UNENFORCED", "LEN_BYTES", "ZERO_LIMIT_IGNORED", "INT_BOUND_TRUNCATED", "FLOAT_MULTIPLEOF_TOLERANCE", "NESTED_ARRAY_OUTER_LIMITS", "UNENFORCED_NAMED_ARRAY", "UNENFORCED_ITEM_STRING",
+	"UNENFORCED_ITEM_NUMERIC", "UNENFORCED_NAMED_ARRAY_ITEM_REQUIRED", "UNENFORCED_INLINE_STRUCT_PROPS", "REF_UNTYPED_DEF_IS_ANY", "SIZED_INT_ENUM_REJECTS_ALL", "DEFAULT_ENUM_NULL_REJECTED",
+	"FORMAT_DEF_NO_METHODS", "NULL_TO_ADDL_STRUCT_ERRORS", "NULL_OBJECT_VALIDATES_ZERO", "REQUIRED_UNDECLARED_IGNORED", "UNENFORCED_MAPVAL_REQUIRED", "NULLTYPE_UNENFORCED", "ADDL_INT_TRUNCATES",
+	"ADDL_NONPRIMITIVE_UNTYPED", "ANYOF_MERGED_FIELD_TYPES", "UNENFORCED_MAPVAL_STRING", "UNENFORCED_MAPVAL_NUMERIC"}
